@@ -46,6 +46,7 @@ func main() {
 		Run:           run,
 		Timeout:       300 * time.Second,
 		MinNonTrivial: 2000,
+		Finish:        finish,
 	})
 }
 
@@ -70,7 +71,7 @@ func newWorld(p *program, oc *fw.Outcome, r *rand.Rand) *world {
 }
 
 // baseline lints the plain program and checks that its diagnostics are the intended ones.
-func (w *world) baseline() bool {
+func (w *world) baseline(count bool) bool {
 	texts := map[string]string{}
 	for _, f := range w.p.Order {
 		texts[f] = w.p.text(f)
@@ -107,18 +108,24 @@ func (w *world) baseline() bool {
 		w.oc.Inconc = append(w.oc.Inconc, "builder: the plain program has a diagnostic on a line without an injected error: "+stray+"\n"+texts["main.vcl"])
 		return false
 	}
-	if strings.Join(got, "\n") != strings.Join(want, "\n") {
-		w.oc.Tag("programs:plain-diagnostics-differ-in-rule-from-catalogue(after-in-sub-include)")
-	} else {
+	exact := strings.Join(got, "\n") == strings.Join(want, "\n")
+	if !count {
+		// calibration of one catalogue entry: the diagnostics must be exactly the listed ones
+		if !exact {
+			w.oc.Inconc = append(w.oc.Inconc, "catalogue: entry does not produce the listed diagnostics\n got: "+strings.Join(got, " ")+"\nwant: "+strings.Join(want, " ")+"\n"+texts["main.vcl"])
+		}
+		return exact
+	}
+	if exact {
 		w.oc.Tag("programs:plain-diagnostics-exactly-as-intended")
+	} else {
+		w.oc.Tag("programs:plain-diagnostics-differ-in-rule-from-catalogue(after-in-sub-include)")
 	}
 	w.oc.Tag("programs")
 	w.oc.TagN("program-diagnostics", int64(len(d0)))
 	w.oc.TagN("statement-positions", int64(len(w.p.Nodes)))
-	depth := map[int]bool{}
 	for _, n := range w.p.Nodes {
 		if len(n.Rules) > 0 && n.Blk.Kind != "file" {
-			depth[n.Depth] = true
 			w.oc.Tag(fmt.Sprintf("diag-at-depth:%d", n.Depth))
 		}
 	}
@@ -141,7 +148,7 @@ func run(c fw.Case) fw.Outcome {
 	case "fixed":
 		p := fixedPrograms()[cc.Fixed]
 		w := newWorld(p, &oc, rand.New(rand.NewSource(int64(cc.Fixed)+1)))
-		if !w.baseline() {
+		if !w.baseline(true) {
 			break
 		}
 		switch {
@@ -167,7 +174,7 @@ func run(c fw.Case) fw.Outcome {
 		r := rand.New(rand.NewSource(cc.Seed))
 		p := randomProgram(r)
 		w := newWorld(p, &oc, r)
-		if !w.baseline() {
+		if !w.baseline(true) {
 			break
 		}
 		w.singles(false, cc.NKinds)
@@ -208,7 +215,7 @@ func calibrate(oc *fw.Outcome) {
 					top = blk("file", "", 0, subDecl("helper", "", body), subDecl("vcl_recv", "RECV", blk("sub", "recv", 0, &node{Kind: "simple", Text: "call helper;"})))
 				}
 				w := newWorld(render(top), oc, rand.New(rand.NewSource(1)))
-				if w.baseline() {
+				if w.baseline(false) {
 					oc.Tag("catalogue:calibrated")
 					for i, d := range w.d0 {
 						_ = i
@@ -236,7 +243,20 @@ func calibrate(oc *fw.Outcome) {
 	}
 	// the unused table
 	w := newWorld(render(blk("file", "", 0, rawTable("tabu"), subDecl("vcl_recv", "RECV", blk("sub", "recv", 0, clean(0))))), oc, rand.New(rand.NewSource(1)))
-	if w.baseline() {
+	if w.baseline(false) {
 		oc.Tag("catalogue:calibrated")
 	}
+}
+
+// finish moves the form x marker x rule-list kind x relation matrix out of the (capped) tag table.
+func finish(r *fw.Report) {
+	matrix := map[string]int64{}
+	for k, n := range r.Tags {
+		if strings.HasPrefix(k, "m:") {
+			matrix[k[2:]] = n
+			delete(r.Tags, k)
+		}
+	}
+	r.Extra["matrix_form_marker_rules_relation(diagnostics of the plain program by their relation to the directive)"] = matrix
+	r.Extra["matrix_cells"] = len(matrix)
 }
